@@ -71,7 +71,7 @@ def rule_s1(ctx: Ctx) -> None:
     if len(stores) == 1 and unparse(stores[0].value) == f"frozenset({init.params[1]})":
         ctx.ok("C19-S1", init.where, "the basis is stored as a frozenset: order and repetition cannot matter", stores[0], init)
     elif len(stores) == 1:
-        ctx.violation("C19-S1", init, stores[0], f"basis stored as `{unparse(stores[0].value)}`: the report may depend on order/repetition of basis elements")
+        ctx.violation("C19-S1", init, stores[0], f"basis stored as `{unparse(stores[0].value)}`: the report may depend on order/repetition of basis elements", robust=True)
     else:
         raise AnalysisError(f"{init.where}: store of the basis not recognised")
     prop = repo.need_method("EnumerationStrategy", "basis")
@@ -82,11 +82,11 @@ def rule_s1(ctx: Ctx) -> None:
     for c in cores:
         if "applies" in c.methods or "_applies_to_symmetry" in c.methods:
             m = c.methods.get("applies") or c.methods.get("_applies_to_symmetry")
-            ctx.violation("C19-S1", m, m.node, f"{c.name} overrides {m.name}: it bypasses the symmetry wrapper / the common core test")
+            ctx.violation("C19-S1", m, m.node, f"{c.name} overrides {m.name}: it bypasses the symmetry wrapper / the common core test", robust=True)
             continue
         missing = [n for n in ("patterns_needed", "is_valid_extension", "corr_number") if n not in c.methods and n not in c.assigns]
         if missing:
-            ctx.violation("C19-S1", c.where, c.node, f"{c.name} does not define {missing}", file=c.module.relpath)
+            ctx.violation("C19-S1", c.where, c.node, f"{c.name} does not define {missing}", file=c.module.relpath, robust=True)
         else:
             ctx.ok("C19-S1", c.where, "defines patterns_needed, is_valid_extension, corr_number; inherits applies and _applies_to_symmetry")
 
@@ -640,7 +640,7 @@ def rule_v2(ctx: Ctx) -> None:
         if val == CORE_PATTS[tok]:
             ctx.ok("C19-V2", f"{mod.name}:{const}", f"{const} = {''.join(str(v + 1) for v in val)}")
         else:
-            ctx.violation("C19-V2", f"{mod.relpath}:{const}", mod.assign_nodes.get(const), f"{const} is {val}, the core pattern is {CORE_PATTS[tok]} (row patterns 2314 / 2413, column patterns their inverses)", file=mod.relpath)
+            ctx.violation("C19-V2", f"{mod.relpath}:{const}", mod.assign_nodes.get(const), f"{const} is {val}, the core pattern is {CORE_PATTS[tok]} (row patterns 2314 / 2413, column patterns their inverses)", file=mod.relpath, robust=True)
     for c in concrete_strategies(repo):
         if "CoreStrategy" not in {k.name for k in repo.mro(c.name)}:
             continue
@@ -656,7 +656,7 @@ def rule_v2(ctx: Ctx) -> None:
             ctx.ok("C19-V2", c.where, f"patterns_needed = {sorted(got)} as named by the class")
         else:
             ctx.violation("C19-V2", f"{c.where}", c.assign_nodes.get("patterns_needed") if hasattr(c, "assign_nodes") else c.node,
-                          f"{c.name}.patterns_needed is {sorted(got)}; the strategy's stated hypothesis (its name) requires {sorted(want)}", file=c.module.relpath)
+                          f"{c.name}.patterns_needed is {sorted(got)}; the strategy's stated hypothesis (its name) requires {sorted(want)}", file=c.module.relpath, robust=True)
         # (b) the prescribed form of the other basis elements
         specs = EXTENSION_SPECS.get(c.name)
         if specs is None:
@@ -710,7 +710,7 @@ def rule_v2(ctx: Ctx) -> None:
         if got == want:
             ctx.ok("C19-V2", f"{c.where}.{attr}", f"{attr} = {unparse(node)[:80]}")
         else:
-            ctx.violation("C19-V2", f"{c.where}.{attr}", node, f"{cname}.{attr} evaluates to {got}; the strategy's condition uses {want}", file=c.module.relpath)
+            ctx.violation("C19-V2", f"{c.where}.{attr}", node, f"{cname}.{attr} evaluates to {got}; the strategy's condition uses {want}", file=c.module.relpath, robust=True)
 
 
 _OLD_RUN_V2 = run
